@@ -249,11 +249,11 @@ PROPS = {
               'that may become the other, and then both carry the agreed type, every other pair is an error with at least one message; '
               'check_or_constrain_unsigned/_signed accept exactly the expected type or a fitting unspecified literal (value bounds of every integer '
               'type checked); check_type accepts only an expression whose type equals the expected one; the expect_* shape deciders accept exactly '
-              'number / signed number / Boolean-or-number / tuple / array types. Nine typing RULES - arms of the real UntypedExpr::type_check, lifted (R5f), the recursive '
+              'number / signed number / Boolean-or-number / tuple / array types. Ten typing RULES - arms of the real UntypedExpr::type_check, lifted (R5f), the recursive '
               'type_check of the operands being an opaque function (induction hypothesis) - are proved to accept an expression only if its operands are well-typed and: cast - operand and '
               'target are bool or number types; unary minus - a signed number; `!` - a bool or number; element access - an array type and a usize index (or a fitting '
               'unsuffixed literal); + - * / % - operand types that agree on a number type, which is the result type; & | ^ - agreeing bool or number types; < > - agreeing '
-              'number types, result bool; == != - agreeing types, result bool; << >> - a number and a u8 amount, result the left type. That the remaining constructs of type_check consult '
+              'number types, result bool; == != - agreeing types, result bool; << >> - a number and a u8 amount, result the left type; if / else - the typed condition is a bool and the branch types agree on the type of the expression. That the remaining constructs of type_check consult '
               'these deciders, scoping, mutability, recursion / unused-function checks and pattern refutability are NOT under contract: as the labelled '
               'bounded stand-in, a catalogue of 115 static-rule violations (every rule named in the statement, several shapes each: operand / argument / '
               'return / branch / annotation / assignment type mismatches for every pair of 17 types, non-Boolean conditions, unknown and out-of-scope '
